@@ -236,9 +236,16 @@ impl Deserializable for StackOutputs {
         let count = source.read_u32()?.try_into().expect("u32 must fit in a usize");
         let overflow_addrs = source.read_many::<u64>(count)?;
 
-        Ok(Self {
-            stack,
-            overflow_addrs,
-        })
+        // the decoded values are untrusted: they must satisfy the same invariants as the values
+        // passed to the constructor (valid field elements, at least 16 stack elements, and a
+        // matching number of overflow addresses)
+        if stack.len() < STACK_TOP_SIZE {
+            return Err(DeserializationError::InvalidValue(format!(
+                "number of stack elements must be at least {STACK_TOP_SIZE}, but was {}",
+                stack.len()
+            )));
+        }
+        Self::new(stack, overflow_addrs)
+            .map_err(|err| DeserializationError::InvalidValue(format!("{err:?}")))
     }
 }
